@@ -70,6 +70,7 @@ def tyOf : Expr → Option Ty
   | .upper e => match tyOf e with | some .int => some .int | _ => none
   | .lower e => match tyOf e with | some .int => some .int | _ => none
   | .vref e => tyOf e
+  | .present _ c => match tyOf c with | some .bool => some .bool | _ => none
   | .cref _ => none
 def allInt : List Expr → Bool
   | [] => true
